@@ -1,4 +1,4 @@
 (** Extraction of the session engine. Directives: ExtrOcamlBasic only. *)
 From Coq Require Import ExtrOcamlBasic.
 From Qv Require Import Common.Bytes Model.NetRead Model.Session Model.Trace Spec.SessionSpec.
-Extraction "m.ml" run_session trace_run queue_run a_init trace_header data_verdict_ok maxbytes handoff_msg_ok.
+Extraction "m.ml" run_session trace_run queue_run a_init trace_header data_verdict_ok maxbytes handoff_msg_ok submission_port.
